@@ -24,6 +24,7 @@ def parseOp (t : String) : Option Op :=
   | ["qf"] => some (.req (some .fail))
   | ["f", i, r] => do pure (.fin (← i.toNat?) (← parseRes r))
   | ["t"] => some .turn
+  | ["i", i] => do pure (.innerReq (← i.toNat?))   -- the body of op i requests another serialized op on its node and waits for it
   | ["r", i] => do pure (.retry (← i.toNat?))      -- current attempt of op i collides; next attempt begins
   | ["u", i] => do pure (.fin (← i.toNat?) .fail)  -- current attempt collides and the backoffer gives up: the op fails
   | _ => none
